@@ -96,3 +96,13 @@ package backup
 //@   mode int
 //@   opt only-stated
 //@   at-call delete requires drops-a-file-just-found-in-the-set: haskey(arg0, arg1)
+//
+// restoreByName downloads a remote file exactly when `contains` says it is not among the local files: the restored copy
+// is complete only if `contains` is exactly membership. Full contract.
+//@ func contains
+//@   property C19
+//@   mode int
+//@   ensures  true-only-for-a-member: result ==> (exists k :: 0 <= k && k < len(slice) && slice[k] == s)
+//@   ensures  every-member-is-found: (forall k :: 0 <= k && k < len(slice) ==> slice[k] != s) ==> !result
+//@   ensures  false-only-if-absent: !result ==> (forall k :: 0 <= k && k < len(slice) ==> slice[k] != s)
+//@   loop 0 invariant none-so-far: forall j :: 0 <= j && j < range_i ==> slice[j] != s
